@@ -32,6 +32,7 @@ type world struct {
 	obs      []sx.V
 	events   []sx.V
 	tagset   map[string]bool
+	wcap     int // pressure histories: the static size of the outbound buffers (0 = production)
 }
 
 type worldCfg struct {
@@ -503,8 +504,11 @@ func (w *world) inputSx() sx.V {
 	for _, r := range w.cfg.ranges {
 		ranges = append(ranges, sx.L(sx.I(r[0].(int)), sx.I(r[1].(int)), sx.S(r[2].(string))))
 	}
-	return sx.L(sx.L(sx.I(w.cfg.limit), sx.S(w.cfg.password), sx.Bool(w.cfg.timeout), sx.I(w.cfg.maxConns)),
-		sx.L(pools...), sx.L(ranges...), sx.L(w.events...))
+	cfgv := []sx.V{sx.I(w.cfg.limit), sx.S(w.cfg.password), sx.Bool(w.cfg.timeout), sx.I(w.cfg.maxConns)}
+	if w.wcap > 0 {
+		cfgv = append(cfgv, sx.I(w.wcap)) // not a parameter of the model: buffers are FIFO for every threshold (C19)
+	}
+	return sx.L(sx.L(cfgv...), sx.L(pools...), sx.L(ranges...), sx.L(w.events...))
 }
 
 func runHistory(seed uint64, idx int, quick bool) (in sx.V, out sx.V, tags []string) {
